@@ -72,6 +72,7 @@ struct Thread {
   int64_t prio;
   uint32_t spin;         // consecutive yields without progress
   uint32_t load_streak;  // consecutive atomic loads without a write
+  int64_t last_clock_read;  // virtual time of this thread's last clock read
 };
 
 struct MutexSt { uintptr_t addr; int owner; int count; VC vc; };
@@ -860,6 +861,7 @@ uint64_t step() { return G.steps; }
 void point() { if (Thread* t = self()) sched_point_impl(t, false); }
 void yield_point() { if (Thread* t = self()) sched_point_impl(t, true); }
 int64_t now_ns() { return G.vclock; }
+int64_t last_clock_read_ns() { Thread* t = self(); return t ? t->last_clock_read : 0; }
 void advance_clock(int64_t ns) {
   if (ns > 0) G.vclock += ns;
   real_progress();
@@ -1136,6 +1138,7 @@ static int64_t ts_to_ns(const struct timespec* ts) { return (int64_t)ts->tv_sec 
 
 static void virtual_time(clockid_t clk, struct timespec* ts) {
   (void)clk;
+  if (Thread* me = self()) me->last_clock_read = G.vclock;
   int64_t t = G.P.clock_base_ns + G.vclock;
   ts->tv_sec = t / 1000000000LL;
   ts->tv_nsec = t % 1000000000LL;
@@ -1537,7 +1540,10 @@ namespace absl {
 ABSL_NAMESPACE_BEGIN
 int64_t GetCurrentTimeNanos();
 int64_t GetCurrentTimeNanos() {
-  if (dsched::active()) return dsched::G.P.clock_base_ns + dsched::G.vclock;
+  if (dsched::active()) {
+    if (dsched::tl_self) dsched::tl_self->last_clock_read = dsched::G.vclock;
+    return dsched::G.P.clock_base_ns + dsched::G.vclock;
+  }
   struct timespec ts;
   clock_gettime(CLOCK_REALTIME, &ts);
   return (int64_t)ts.tv_sec * 1000000000LL + ts.tv_nsec;
